@@ -152,6 +152,8 @@ def uf1(name):
 
 def m_sqrt(ex, fr, st, args, ins):
     x = force(args[0])
+    if isinstance(x, FFP):
+        return FFP(z3.fpSqrt(RNE, x.t))
     if isinstance(x, float):
         if x < 0:
             return float('nan')
@@ -212,6 +214,8 @@ def m_log(ex, fr, st, args, ins):
 
 def m_ceil(ex, fr, st, args, ins):
     x = force(args[0])
+    if isinstance(x, FFP):
+        return FFP(z3.fpRoundToIntegral(z3.RTP(), x.t))
     if isinstance(x, float):
         return float(math.ceil(x)) if not (math.isinf(x) or math.isnan(x)) else x
     if isinstance(x, FInt):
